@@ -27,6 +27,7 @@ from yabgp.message.attribute.nlri.ipv6_mpls_vpn import IPv6MPLSVPN
 from yabgp.message.attribute.nlri.ipv4_flowspec import IPv4FlowSpec
 from yabgp.message.attribute.nlri.ipv6_unicast import IPv6Unicast
 from yabgp.message.attribute.nlri.labeled_unicast.ipv4 import IPv4LabeledUnicast
+from yabgp.message.attribute.nlri.labeled_unicast.ipv6 import IPv6LabeledUnicast
 from yabgp.message.attribute.nlri.evpn import EVPN
 from yabgp.message.attribute.nlri.linkstate import BGPLS
 from yabgp.message.attribute.nlri.ipv4_srte import IPv4SRTE
@@ -98,6 +99,9 @@ class MpUnReachNLRI(Attribute):
                         withdraw_list.append(nlri)
 
                 return dict(afi_safi=(afi, safi), withdraw=withdraw_list)
+            elif safi == safn.SAFNUM_MPLS_LABEL:
+                nlri = IPv4LabeledUnicast.parse(nlri_bin, addpath=add_path, iswithdraw=True)
+                return dict(afi_safi=(afi, safi), withdraw=nlri)
             else:
                 return dict(afi_safi=(afn.AFNUM_INET, safi), withdraw=repr(nlri_bin))
         # for ipv6
@@ -108,6 +112,9 @@ class MpUnReachNLRI(Attribute):
             elif safi == safn.SAFNUM_LAB_VPNUNICAST:
                 return dict(afi_safi=(afi, safi), withdraw=IPv6MPLSVPN.parse(value=nlri_bin, iswithdraw=True,
                                                                              addpath=add_path))
+            elif safi == safn.SAFNUM_MPLS_LABEL:
+                nlri = IPv6LabeledUnicast.parse(nlri_bin, addpath=add_path, iswithdraw=True)
+                return dict(afi_safi=(afi, safi), withdraw=nlri)
             else:
                 return dict(afi_safi=(afi, safi), withdraw=repr(nlri_bin))
         # for l2vpn
@@ -206,6 +213,14 @@ class MpUnReachNLRI(Attribute):
                         + struct.pack('!H', len(attr_value)) + attr_value
             elif safi == safn.SAFNUM_LAB_VPNUNICAST:
                 nlri = IPv6MPLSVPN.construct(value=value['withdraw'], iswithdraw=True)
+                if nlri:
+                    attr_value = struct.pack('!H', afi) + struct.pack('!B', safi) + nlri
+                    return struct.pack('!B', cls.FLAG) + struct.pack('!B', cls.ID) \
+                        + struct.pack('!H', len(attr_value)) + attr_value
+                else:
+                    return None
+            elif safi == safn.SAFNUM_MPLS_LABEL:
+                nlri = IPv6LabeledUnicast.construct(value.get('withdraw') or [], 'withdraw')
                 if nlri:
                     attr_value = struct.pack('!H', afi) + struct.pack('!B', safi) + nlri
                     return struct.pack('!B', cls.FLAG) + struct.pack('!B', cls.ID) \
